@@ -345,12 +345,20 @@ class C03(Prop):
       break
     # the frozen defaults as the real spec holds them (key order included)
     state = tv.readback(tv.build(spec))
-    frozen_default = {key[1]: st[-1][1] for key, st in state[1] if st[-1][2]}
+    frozen_default = {}
+    for key, st in state[1]:
+      if st[-1][2]:
+        frozen_default.setdefault(key[1], []).append(st[-1][1])
+      if st[0] == 'union':
+        for cst in st[1]:
+          if cst[-1][2]:                          # a frozen Union candidate
+            frozen_default.setdefault(key[1], []).append(cst[-1][1])
 
     def norm(k, v):
       # stated assumption: equal dicts come in equal key order where a frozen default is compared
-      if k in frozen_default and canon(v) == canon(frozen_default[k]):
-        return copy.deepcopy(frozen_default[k])
+      for fdv in frozen_default.get(k, []):
+        if canon(v) == canon(fdv):
+          return copy.deepcopy(fdv)
       return v
     items = [[f[0][1], norm(f[0][1], g.valid(f[1]))] for f in fields if not (f[1].get('d') is not None and rng.chance(0.3))]
     ops = []
@@ -374,8 +382,11 @@ class C03(Prop):
           if fd is not None and fd['k'] == 'union':
             cont = ([c for c in fd['cands'] if c['k'] in ('list', 'dict')] or [fd])[0]
           step = 0 if (cont is not None and cont['k'] == 'list') else 'y'
-          if rng.chance(0.15):
-            step = 'y' if step == 0 else 0      # a key of the wrong kind for the container (KeyError)
+          if rng.chance(0.15) and cont is not None and (
+              cont['k'] == 'list' or (cont['k'] == 'dict' and cont.get('fields'))):
+            # a key of the wrong kind for a TYPED container (KeyError); an untyped dict (below `Any`)
+            # takes an int key as it is, and the model's dicts have string keys only
+            step = 'y' if step == 0 else 0
           path, m = [k] + ([step] if rng.chance(0.5) else []), (fd if fd is not None else None)
           if len(path) > 1:
             m = None
